@@ -466,10 +466,10 @@ def gen_fac_cases(rng, tier):
     # every (domain sizes, weight shape) pair up to rank 3, in each of the three forms
     pairs = [(a, b) for a in shapes for b in shapes]
     if tier == "quick":
-        # all pairs with sizes <= 2, every matching pair, plus 900 sampled others
+        # all pairs with sizes <= 2, every matching pair, plus 400 sampled others
         small = [(a, b) for a, b in pairs if max(a + b + [0]) <= 2]
         rest = [(a, b) for a, b in pairs if max(a + b + [0]) > 2 and a != b]
-        pairs = small + [(a, a) for a in shapes if max(a + [0]) > 2] + rng.sample(rest, 900)
+        pairs = small + [(a, a) for a in shapes if max(a + [0]) > 2] + rng.sample(rest, 400)
     for k, (ds, ws) in enumerate(pairs):
         for form in ("nested", "tensor", "patterned"):
             flav = [(k + j) % 5 for j in range(len(ds))]
@@ -617,7 +617,9 @@ def gen_bind_cases(rng, tier):
                 if not all(x in m for x in t): continue
                 for p in pres:
                     for const in (False, True):
-                        cases.append(("match", bind_history(cls, m, p, ("f", t, True), [m[x] for x in t], const, rng)))
+                        if const and tier == "quick" and p not in ("none", "bound"): continue
+                        cases.append(("match", bind_history(cls, m, p, ("f", t, True), [m[x] for x in t], const, rng,
+                                                            tail=(tier != "quick" or p in ("none", "bound")))))
     # equal-by-content vs different domains in every position, arities 1..3
     for cls in ("FG", "FGG"):
         for r in (1, 2, 3):
@@ -714,7 +716,7 @@ RUNNERS = {"dom": (run_dom, DOM), "fac": (run_fac, FAC), "bind": (run_bind, BIND
 KNOWN_CODES = {"c20dom": (5,)}      # verdicts that merely hit a known finding (per check function)
 MAX_REPORTED = 150                  # per non-zero verdict code
 
-def run_model_c20(cf, values, seed, coq_sample=10, per_known=4):
+def run_model_c20(cf, values, seed, coq_sample=8, per_known=4):
     """All cases through the extracted driver.  Inside Coq (vm_compute, parallel shards):
     EVERY case whose non-zero verdict is going to be reported as a violation, a sample of the
     zero verdicts, and a sample of the verdicts that merely hit a known finding; both evaluations
@@ -739,10 +741,10 @@ def run_model_c20(cf, values, seed, coq_sample=10, per_known=4):
             if len(bad) > MAX_REPORTED: dropped[c] = len(bad) - MAX_REPORTED
     rest = [i for i in idx if codes[i] == 0]
     rng.shuffle(rest)
-    pick.update(rest[:coq_sample])
+    pick.update(sorted(rest[:3 * coq_sample], key=sz)[:coq_sample])     # random, biased to cases Coq elaborates quickly
     pick = sorted(pick)
     if pick:
-        ccodes = run_coq(cf, [values[i] for i in pick], shard=max(1, min(12, (len(pick) + 3) // 4)), jobs=8, tag=cf.kind)
+        ccodes = run_coq(cf, [values[i] for i in pick], shard=(len(pick) if len(pick) <= 16 else 12), jobs=8, tag=cf.kind)
         for i, c in zip(pick, ccodes):
             if c != codes[i]:
                 raise BuildError("extracted code and vm_compute disagree on %s case %d: %d vs %d" % (cf.kind, i, codes[i], c))
@@ -799,7 +801,7 @@ def run(tier, seed):
             samples.append(dict(kind=kind, spec=items[-1][1]))
     cov = dict(evaluations=total, distinct_nontrivial=distinct,
                rule="dom: every value list of length <= 3 over {0, 1, 'a', None, True} (duplicates and the cross-type duplicate 1/True included) as list, tuple and generator; random domains of size 0..8 over 20 mixed hashable values given as list/tuple/generator/iterator/dict (20% with duplicates); RangeDomain sizes 0,1,2,3,5,inf; each with contains/numberize on members and non-members, denumberize on -n-2..n+1, ==/!= against 5-8 other domains. "
-                    "fac: (domain sizes, weight shape) pairs up to rank 3 over sizes 0..3 (quick: all pairs with sizes <= 2, every matching pair, 900 sampled others; thorough: all 7225) in the three forms nested list / Tensor / PatternedTensor, plus eye/full patterned tensors, infinite domains and domains built from generators, malformed nested lists (ragged, mixed depth, empty rows); apply on every complete value tuple, prefixes, over-long and unknown values; == against 6-9 other factors. "
+                    "fac: (domain sizes, weight shape) pairs up to rank 3 over sizes 0..3 (quick: all pairs with sizes <= 2, every matching pair, 400 sampled others; thorough: all 7225) in the three forms nested list / Tensor / PatternedTensor, plus eye/full patterned tensors, infinite domains and domains built from generators, malformed nested lists (ragged, mixed depth, empty rows); apply on every complete value tuple, prefixes, over-long and unknown values; == against 6-9 other factors. "
                     "bind: every pairing of an edge label (terminal/nonterminal, type over {A,B}, arity 0..3) with a factor (domains over {D2, D3, R2}, arity 0..3) under pre-states (label unregistered / registered / clashing / nonterminal clash / already bound; node labels mapped to equal / different / no domain), all matching pairings under every pre-state, equal-by-content vs different domain in every position, new_finite_domain / new_finite_factor grids, random histories; FactorGraph and FGG alternate; shape() on label lists, tuples, node lists, EdgeLabel, Edge. "
                     "non-trivial = domain of size >= 2 (or range size >= 2), factor of rank >= 1, history with >= 3 calls including a factor binding; distinct by spec",
                samples=samples, phase_seconds=phase, generator_histogram=hist, verdict_histogram=verdicts, kernel_reevaluated=nk_total,
